@@ -289,7 +289,7 @@ class ArrayUnionMatcher(CombinationMatcher):
         return max(self._a)
 
     def skip_to(self, docnum):
-        if docnum < self._offset:
+        if docnum <= self._docnum:
             # We've already passed it
             return
         elif docnum < self._limit:
